@@ -41,9 +41,13 @@ for _q in ("sta", "smp", "gja", "pos", "neg"):
     ROWS["modularity_und_sign(%s)" % _q] = ("sign", (lambda W, ci, q=_q: bct.modularity_und_sign(W, ci, q)[1]))
 
 
+_NARROW = [False]
+
+
 def _relabel(ci, m):
     out = np.array([m[l - 1] for l in ci])
-    return out if out.dtype.kind == "f" else out.astype(int)
+    out = out if out.dtype.kind == "f" else out.astype(int)
+    return gen.narrow_labels(out) if _NARROW[0] else out
 
 
 def _order_preserving(m):
@@ -69,6 +73,9 @@ def check(case, ctx):
     row = case["row"]
     fails = []
     ctx.label("row:" + row.split("(")[0])
+    _NARROW[0] = bool(case.get("narrow"))
+    if _NARROW[0]:
+        ctx.label("labels-in-narrowest-int-type")
     if row == "partition_distance":
         cx, cy = np.array(case["cx"]), np.array(case["cy"])
         mx, my = case["mx"], case["my"]
@@ -83,7 +90,9 @@ def check(case, ctx):
         kx, ky = len(set(cx.tolist())), len(set(cy.tolist()))
         if not same:
             ctx.mark_nontrivial(case)
-        o2 = ctx.call(bct.partition_distance, _relabel(cx, mx), _relabel(cy, my))
+        shp = {"flat": (n,), "column": (n, 1), "row": (1, n)}[case.get("shape", "flat")]
+        ctx.label("vectors-as-" + case.get("shape", "flat"))
+        o2 = ctx.call(bct.partition_distance, _relabel(cx, mx).reshape(shp), _relabel(cy, my).reshape(shp))
         d, how = compare.outcomes_equal(o, o2, RT, AT)
         if d:
             fails.append(Failure("partition_distance:depends-on-label-values", d, case))
@@ -160,7 +169,7 @@ def check(case, ctx):
     ci = np.array(case["ci"])
     m = case["m"]
     ci2 = _relabel(ci, m)
-    if case.get("float_labels"):
+    if case.get("float_labels") and len(set(ci2.astype(float).tolist())) == len(set(ci2.tolist())):     # (only if the cast keeps them distinct)
         # label vectors produced by the library itself are often float arrays holding integers
         ci2 = ci2.astype(float)
         ctx.label("float-labels")
@@ -202,7 +211,8 @@ def cases(draw, rows):
             cy = cx.copy()
         else:
             cy = draw(gen.partition(n))
-        return {"row": row, "cx": cx, "cy": cy, "mx": draw(gen.relabelling(int(cx.max()), True)), "my": draw(gen.relabelling(int(cy.max()), True))}
+        return {"row": row, "cx": cx, "cy": cy, "mx": draw(gen.relabelling(int(cx.max()), True)), "my": draw(gen.relabelling(int(cy.max()), True)),
+                "shape": draw(st.sampled_from(["row", "flat", "column", "flat"])), "narrow": draw(st.booleans())}
     if row == "agreement":
         r = draw(st.integers(2, 4))
         cols = [draw(gen.partition(n)) for _ in range(r)]
@@ -211,9 +221,10 @@ def cases(draw, rows):
     k = int(ci.max())
     m = draw(gen.relabelling(k, force_reversing=draw(st.booleans())))
     if row == "ci2ls/ls2ci":
-        return {"row": row, "ci": ci, "m": m}
+        return {"row": row, "ci": ci, "m": m, "narrow": draw(st.booleans())}
     W = draw(_matrix(ROWS[row][0], n))
-    return {"row": row, "W": W, "ci": ci, "m": m, "order": draw(st.sampled_from(gen.ORDERS)), "float_labels": draw(st.integers(0, 3)) == 0}
+    return {"row": row, "W": W, "ci": ci, "m": m, "order": draw(st.sampled_from(gen.ORDERS)), "float_labels": draw(st.integers(0, 3)) == 0,
+            "narrow": draw(st.booleans())}
 
 
 def units(tier):
